@@ -904,4 +904,41 @@ theorem F32_le_F64 : F32.le F64 := by unfold Fmt.le; decide
 theorem F32_le_F80 : F32.le F80 := by unfold Fmt.le; decide
 theorem F64_le_F80 : F64.le F80 := by unfold Fmt.le; decide
 
+/-! ## End-to-end accuracy of a conversion kernel `x ↦ x·K` -/
+
+/-- **One conversion step.** If the code's constant `K` is within relative `c` of the factor `A` the
+unit's symbol implies, then the computed `fl(x·K)` is within relative `u·(1+c) + c` of the exact
+`x·A` — for every finite non-zero `x` whose product is in the normal range and does not overflow. With
+`c = 4u` (what the table theorem of C01 establishes for every unit) that is `5u + 4u²`: a few units in
+the last place. -/
+theorem mul_const_accuracy (f : Fmt) (hp : 1 ≤ f.p) (s1 s2 : Bool) (m1 m2 : Nat) (e1 e2 : Int)
+    (h1 : 0 < m1) (h2 : 0 < m2) (A c : ℝ) (hA : 0 < A) (hc : 0 ≤ c)
+    (hK : |toReal (fin s2 m2 e2) - A| ≤ c * A)
+    (hnorm : f.minNormal ≤ |toReal (fin s1 m1 e1) * toReal (fin s2 m2 e2)|)
+    {r : Fl} (hr : mul f (fin s1 m1 e1) (fin s2 m2 e2) = r) (hfin : r.isFinite = true) :
+    |toReal r - toReal (fin s1 m1 e1) * A| ≤ (f.u * (1 + c) + c) * (|toReal (fin s1 m1 e1)| * A) := by
+  set x := toReal (fin s1 m1 e1) with hx
+  set K := toReal (fin s2 m2 e2) with hKd
+  have hu : 0 ≤ f.u := by unfold Fmt.u; positivity
+  have hmul := mul_rel f hp s1 s2 m1 m2 e1 e2 h1 h2 hnorm hr hfin
+  have hxK : |x * K - x * A| ≤ c * (|x| * A) := by
+    rw [← mul_sub, abs_mul]
+    calc |x| * |K - A| ≤ |x| * (c * A) := mul_le_mul_of_nonneg_left hK (abs_nonneg _)
+      _ = c * (|x| * A) := by ring
+  have hKabs : |K| ≤ (1 + c) * A := by
+    have := abs_sub_abs_le_abs_sub K A
+    rw [abs_of_pos hA] at this
+    linarith
+  have hxKabs : |x * K| ≤ (1 + c) * (|x| * A) := by
+    rw [abs_mul]
+    calc |x| * |K| ≤ |x| * ((1 + c) * A) := mul_le_mul_of_nonneg_left hKabs (abs_nonneg _)
+      _ = (1 + c) * (|x| * A) := by ring
+  calc |toReal r - x * A| = |(toReal r - x * K) + (x * K - x * A)| := by ring_nf
+    _ ≤ |toReal r - x * K| + |x * K - x * A| := abs_add_le _ _
+    _ ≤ f.u * |x * K| + c * (|x| * A) := add_le_add hmul hxK
+    _ ≤ f.u * ((1 + c) * (|x| * A)) + c * (|x| * A) := by
+        have := mul_le_mul_of_nonneg_left hxKabs hu
+        linarith
+    _ = (f.u * (1 + c) + c) * (|x| * A) := by ring
+
 end PhQVerif.Fl
